@@ -37,9 +37,11 @@ import (
 var baselineFuncsTxt string
 
 // baselineFuncs: declKey -> fingerprint of the body (see declFingerprint); baselineHas tests membership.
-var baselineFuncs = func() map[string]string {
+var baselineFuncs = parseBaseline(baselineFuncsTxt)
+
+func parseBaseline(txt string) map[string]string {
 	m := map[string]string{}
-	for _, l := range strings.Split(baselineFuncsTxt, "\n") {
+	for _, l := range strings.Split(txt, "\n") {
 		if l = strings.TrimSpace(l); l != "" && !strings.HasPrefix(l, "#") {
 			f := strings.Fields(l)
 			fp := ""
@@ -50,7 +52,7 @@ var baselineFuncs = func() map[string]string {
 		}
 	}
 	return m
-}()
+}
 
 func baselineHas(k string) bool { _, ok := baselineFuncs[k]; return ok }
 
